@@ -1,4 +1,265 @@
+// C14 (schedule-dependent half): the BVH's internal boxes are produced by a
+// lock-free bottom-up pass (first arrival leaves, second computes the union)
+// and queries record through a shared recorder. Under simulated schedules the
+// recorded (query, leaf) multiset must equal the all-pairs closed-interval
+// scan, each pair once, also after UpdateBoxes and an axis-aligned Transform;
+// same for the 2D edge-pair BVH.
+#include <algorithm>
+#include <map>
+#include <mutex>
+#include <set>
+#include <vector>
+
+#define private public
+#include "collider.h"
+#undef private
+#include "boolean2.h"
 #include "jobs.h"
+
 namespace vh {
-void register_c14() {}
+namespace {
+using namespace manifold;
+
+template <class T>
+Vec<T> toVec(const std::vector<T>& v) {
+  Vec<T> out(v.size());
+  for (size_t i = 0; i < v.size(); i++) out[i] = v[i];
+  return out;
+}
+
+struct LeafSet {
+  std::vector<Box> boxes;
+  std::vector<uint32_t> morton;
+};
+
+Box rnd_box(Rng& r, int lattice, int mode) {
+  auto c = [&]() { return (double)r.below(lattice); };
+  vec3 a(c(), c(), c());
+  vec3 size(0.0);
+  switch (mode) {
+    case 0: size = vec3(r.below(3), r.below(3), r.below(3)); break;         // small, often degenerate
+    case 1: size = vec3(r.uni(0, 2), r.uni(0, 2), r.uni(0, 2)); break;      // generic
+    case 2: size = vec3(0.0); break;                                           // points
+    default: size = vec3(1.0); break;
+  }
+  return Box(a, a + size);
+}
+
+LeafSet make_leaves(Rng& r, int n, int kind) {
+  LeafSet ls;
+  const int lattice = kind == 3 ? 1 : (kind == 2 ? 2 : 8);
+  for (int i = 0; i < n; i++) ls.boxes.push_back(rnd_box(r, lattice, kind == 4 ? 2 : (kind % 2)));
+  if (kind == 5)
+    for (int i = 1; i < n; i++) ls.boxes[i] = ls.boxes[0];  // identical boxes
+  Box all;
+  all.min = vec3(std::numeric_limits<double>::infinity());
+  all.max = vec3(-std::numeric_limits<double>::infinity());
+  for (auto& b : ls.boxes) all = all.Union(b);
+  if (kind == 6) {  // degenerate bounding box in z
+    for (auto& b : ls.boxes) b.min.z = b.max.z = 1.0;
+    all.min.z = all.max.z = 1.0;
+  }
+  std::vector<std::pair<uint32_t, int>> order;
+  for (int i = 0; i < n; i++) {
+    vec3 center = 0.5 * (ls.boxes[i].min + ls.boxes[i].max);
+    uint32_t code;
+    vec3 ext = all.max - all.min;
+    if (ext.x > 0 && ext.y > 0 && ext.z > 0)
+      code = Collider::MortonCode(center, all);
+    else
+      code = (kind == 6) ? (uint32_t)(i % 3) : 0u;  // the library's own degenerate-bbox codes are not the subject here
+    if (kind == 7) code = 5;                        // all codes identical
+    order.push_back({code, i});
+  }
+  std::stable_sort(order.begin(), order.end(), [](auto& a, auto& b) { return a.first < b.first; });
+  LeafSet out;
+  for (auto& o : order) {
+    out.boxes.push_back(ls.boxes[o.second]);
+    out.morton.push_back(o.first);
+  }
+  return out;
+}
+
+using Pairs = std::vector<std::pair<int, int>>;
+
+std::string compare_pairs(Pairs got, Pairs want, const char* what) {
+  std::sort(got.begin(), got.end());
+  std::sort(want.begin(), want.end());
+  if (got == want) return "";
+  for (size_t i = 1; i < got.size(); i++)
+    if (got[i] == got[i - 1]) return std::string(what) + ":pair_reported_twice";
+  std::set<std::pair<int, int>> g(got.begin(), got.end()), w(want.begin(), want.end());
+  for (auto& p : w)
+    if (!g.count(p)) return std::string(what) + ":missed_pair";
+  return std::string(what) + ":spurious_pair";
+}
+
+std::string internal_boxes_ok(const Collider& c) {
+  // every internal node's box equals the union of its children's boxes (hence of its subtree's leaves)
+  for (size_t i = 0; i < c.internalChildren_.size(); i++) {
+    int node = 2 * (int)i + 1;
+    Box u = c.nodeBBox_[c.internalChildren_[i].first].Union(c.nodeBBox_[c.internalChildren_[i].second]);
+    const Box& b = c.nodeBBox_[node];
+    if (!(u.min == b.min) || !(u.max == b.max)) return "internal_box_not_union_of_children";
+  }
+  // tree covers each leaf exactly once
+  std::vector<int> seen(c.NumLeaves(), 0);
+  std::vector<int> stack{1};
+  size_t guard = 0;
+  while (!stack.empty() && guard++ < 4 * c.nodeBBox_.size() + 4) {
+    int node = stack.back();
+    stack.pop_back();
+    if (node % 2 == 0) {
+      seen[node / 2]++;
+      continue;
+    }
+    auto ch = c.internalChildren_[(node - 1) / 2];
+    stack.push_back(ch.first);
+    stack.push_back(ch.second);
+  }
+  for (int s : seen)
+    if (s != 1) return "tree_does_not_cover_each_leaf_once";
+  return "";
+}
+
+std::string run_case(const Args& a) {
+  Rng r(a.u("dseed", 1));
+  const int n = (int)a.i("n", 16), kind = (int)a.i("kind", 0), nq = (int)a.i("queries", 32);
+  LeafSet ls = make_leaves(r, n, kind);
+  Vec<Box> leafBB = toVec(ls.boxes);
+  Vec<uint32_t> leafMorton = toVec(ls.morton);
+  Collider col(leafBB, leafMorton);
+  std::string d = internal_boxes_ok(col);
+  if (!d.empty()) return "build:" + d;
+
+  auto query_boxes = [&](const std::vector<Box>& boxes, const std::vector<Box>& leaves, const char* what) -> std::string {
+    Vec<Box> q = toVec(boxes);
+    Pairs got;
+    std::mutex mu;
+    auto f = [&](int qi, int li) {
+      std::lock_guard<std::mutex> lock(mu);
+      got.push_back({qi, li});
+    };
+    auto rec = MakeSimpleRecorder(f);
+    col.Collisions<false, Box>(rec, q.cview(), true);
+    Pairs want;
+    for (size_t i = 0; i < boxes.size(); i++) {
+      if (boxes[i].min.x == std::numeric_limits<double>::infinity()) continue;
+      for (size_t k = 0; k < leaves.size(); k++)
+        if (leaves[k].DoesOverlap(boxes[i])) want.push_back({(int)i, (int)k});
+    }
+    return compare_pairs(got, want, what);
+  };
+  std::vector<Box> queries;
+  for (int i = 0; i < nq; i++) queries.push_back(rnd_box(r, 9, i % 3));
+  d = query_boxes(queries, ls.boxes, "box_query");
+  if (!d.empty()) return d;
+  // self collision (query i skips leaf i)
+  {
+    Pairs got;
+    std::mutex mu;
+    auto f = [&](int qi, int li) {
+      std::lock_guard<std::mutex> lock(mu);
+      got.push_back({qi, li});
+    };
+    auto rec = MakeSimpleRecorder(f);
+    col.Collisions<true, Box>(rec, leafBB.cview(), true);
+    Pairs want;
+    for (int i = 0; i < n; i++)
+      for (int k = 0; k < n; k++)
+        if (i != k && ls.boxes[k].DoesOverlap(ls.boxes[i])) want.push_back({i, k});
+    d = compare_pairs(got, want, "self_query");
+    if (!d.empty()) return d;
+  }
+  // point queries (projected in z)
+  {
+    std::vector<vec3> pts;
+    for (int i = 0; i < nq; i++) pts.push_back(vec3(r.below(9), r.below(9), r.below(9)) + (i % 2 ? vec3(0.5) : vec3(0.0)));
+    Vec<vec3> q = toVec(pts);
+    Pairs got;
+    std::mutex mu;
+    auto f = [&](int qi, int li) {
+      std::lock_guard<std::mutex> lock(mu);
+      got.push_back({qi, li});
+    };
+    auto rec = MakeSimpleRecorder(f);
+    col.Collisions<false, vec3>(rec, q.cview(), true);
+    Pairs want;
+    for (size_t i = 0; i < pts.size(); i++)
+      for (int k = 0; k < n; k++)
+        if (ls.boxes[k].DoesOverlap(pts[i])) want.push_back({(int)i, k});
+    d = compare_pairs(got, want, "point_query");
+    if (!d.empty()) return d;
+  }
+  // UpdateBoxes with new boxes (same order / tree), then queries
+  std::vector<Box> moved = ls.boxes;
+  for (auto& b : moved) {
+    vec3 sh(r.below(3), r.below(3), r.below(3));
+    b = Box(b.min + sh, b.max + sh + vec3((double)r.below(2)));
+  }
+  {
+    Vec<Box> nb = toVec(moved);
+    col.UpdateBoxes(nb);
+    d = internal_boxes_ok(col);
+    if (!d.empty()) return "update:" + d;
+    d = query_boxes(queries, moved, "box_query_after_update");
+    if (!d.empty()) return d;
+  }
+  // axis-aligned transform (permutation + scale + translation)
+  {
+    mat3x4 t(vec3(0, 2, 0), vec3(-1, 0, 0), vec3(0, 0, 3), vec3(1, -2, 0.5));
+    col.Transform(t);
+    std::vector<Box> tb;
+    for (auto& b : moved) tb.push_back(b.Transform(t));
+    d = query_boxes(queries, tb, "box_query_after_transform");
+    if (!d.empty()) return d;
+  }
+  // 2D edge-pair BVH
+  {
+    std::vector<Box2> b2;
+    for (int i = 0; i < n; i++) {
+      vec2 a2(r.below(8), r.below(8));
+      vec2 s2 = (kind % 2) ? vec2(r.uni(0, 2), r.uni(0, 2)) : vec2(r.below(3), r.below(3));
+      b2.push_back(Box2(a2, a2 + s2));
+    }
+    if (kind == 5)
+      for (int i = 1; i < n; i++) b2[i] = b2[0];
+    BVH bvh = BVHBuildFromBoxes(b2);
+    if (!bvh.Empty()) {
+      if ((int)bvh.leafToOrig.size() != n) return "bvh2d:leaf_count";
+      Pairs got;
+      std::mutex mu;
+      auto f = [&](int qi, int li) {
+        std::lock_guard<std::mutex> lock(mu);
+        got.push_back({qi, bvh.leafToOrig[li]});
+      };
+      auto rec = MakeSimpleRecorder(f);
+      auto qf = [&](int i) { return b2[i]; };
+      BVHCollisions(bvh, rec, qf, n, true);
+      Pairs want;
+      for (int i = 0; i < n; i++)
+        for (int k = 0; k < n; k++)
+          if (b2[k].DoesOverlap(b2[i])) want.push_back({i, k});
+      d = compare_pairs(got, want, "bvh2d_query");
+      if (!d.empty()) return d;
+    } else if (n >= 2) {
+      return "bvh2d:empty_for_n>=2";
+    }
+  }
+  return "";
+}
+
+std::string job_c14(const Args& a) {
+  SimSetup s = sim_setup(a);
+  std::string mism;
+  SimOutcome out = run_simulated(s, [&]() { mism = run_case(a); });
+  JObj j;
+  j.str("mismatch", mism).raw("sim", outcome_json(out));
+  return j.done();
+}
+
+}  // namespace
+
+void register_c14() { registry()["c14"] = job_c14; }
+
 }  // namespace vh
